@@ -55,6 +55,29 @@ Fixpoint map_Z (m : list (Z * Z)) (k : Z) : Z :=
 Definition go_quo (a b : Z) : res Z := if Z.eqb b 0 then Panic site_divzero else Ok (Z.quot a b).
 Definition go_rem (a b : Z) : res Z := if Z.eqb b 0 then Panic site_divzero else Ok (Z.rem a b).
 
+(* ---- the arithmetic forms gen_funcs_expr.go emits, gathered in one function so that the
+   correspondence harness can run them against Go's own typed arithmetic (C07 case tag 4):
+   op 0 + 1 - 2 * 3 / 4 % 5 & 6 | 7 ^ 8 &^ 9 << 10 >> 11 unary- 12 unary^ 13 conversion T(a) ---- *)
+Definition wrapT (signed : bool) (w x : Z) : Z := if signed then wrap_s w x else wrap_u w x.
+Definition go_binop (op : Z) (signed : bool) (w a b : Z) : res Z :=
+  match op with
+  | 0 => Ok (wrapT signed w (a + b))
+  | 1 => Ok (wrapT signed w (a - b))
+  | 2 => Ok (wrapT signed w (a * b))
+  | 3 => match go_quo a b with Ok q => Ok (if signed then wrap_s w q else q) | Err e => Err e | Panic p => Panic p end
+  | 4 => go_rem a b
+  | 5 => Ok (Z.land a b)
+  | 6 => Ok (Z.lor a b)
+  | 7 => Ok (Z.lxor a b)
+  | 8 => Ok (Z.ldiff a b)
+  | 9 => Ok (wrapT signed w (Z.shiftl a (Z.min b w)))
+  | 10 => Ok (Z.shiftr a (Z.min b w))
+  | 11 => Ok (wrapT signed w (- a))
+  | 12 => Ok (wrapT signed w (Z.lnot a))
+  | 13 => Ok (wrapT signed w a)
+  | _ => Err 99%N
+  end.
+
 (* fmt.Sprintf with a constant format: an opaque marker (the text is not modelled) *)
 Definition SprintfOf (fmt : string) (args : list Z) : string := fmt.
 
